@@ -8,7 +8,7 @@ use crate::url::URL;
 use serde_json::{json, Value};
 use std::collections::HashMap;
 
-pub const ALPHABET: &[&str] = &["a", " ", "&", "=", "%", "+", "?", "#", "/", "\u{e9}", "\u{1F600}", "%41", "%zz", "0", ";", "\"", "'", "<"];
+pub const ALPHABET: &[&str] = &["a", " ", "&", "=", "%", "+", "?", "#", "/", "\u{e9}", "\u{1F600}", "%41", "%zz", "0", ";", "\"", "'", "<", "\\", "\\..\\", "/../", "%26", "\u{2003}", "\u{a0}"];
 pub const PATHS: &[&str] = &["query", "form-body", "request-target", "echo-get", "echo-post", "echo-post-after-a-longer-request"];
 
 #[derive(Clone, Debug)]
@@ -172,6 +172,17 @@ pub fn run(ctx: &mut Ctx) {
         }
     }
     go(ctx, vec![("a".into(), "1 2".into()), ("b&".into(), "x=y".into()), ("c".into(), "100%".into())]);
+    // long values of multi-byte characters at every byte alignment: whatever fixed byte offset some
+    // code cuts or inspects the text at (a log line, a buffer) falls inside a character for one of them
+    ctx.bound("long_values", json!("1500 repetitions of a 2-, 3- or 4-byte character after 0..3 ASCII bytes, as value and as key; 8000 ASCII characters"));
+    for (ch, w) in [("\u{e9}", 2usize), ("\u{20ac}", 3), ("\u{1F600}", 4)] {
+        for shift in 0..w {
+            let v = format!("{}{}", "a".repeat(shift), ch.repeat(1500));
+            go(ctx, vec![("k".to_string(), v.clone())]);
+            go(ctx, vec![(v, "v".to_string())]);
+        }
+    }
+    go(ctx, vec![("k".to_string(), "a".repeat(8000))]);
     let twenty: Vec<(String, String)> = (0..20).map(|i| (format!("k{}{}", i, ALPHABET[i % ALPHABET.len()]), strings[(i * 37) % strings.len()].clone())).collect();
     go(ctx, twenty);
 }
